@@ -171,6 +171,7 @@ def directed(rnd):
     """systematic inputs: octet boundaries, leading zeros, every IPv6 shape (valid and invalid group counts),
     compressed and embedded-IPv4 forms, IPvFuture, userinfo / port / empty path forms"""
     out = []
+    extra = []      # run, but not mutated (keeps the mutation set bounded)
     for o in OCTETS:
         for pos in range(4):
             q = ["1", "22", "133", "254"]
@@ -183,10 +184,17 @@ def directed(rnd):
 
     def h16():
         return "".join(rnd.choice("0123456789abcdefABCDEF") for _ in range(rnd.randint(1, 4)))
+    def h16n(n):
+        return "".join(rnd.choice("0123456789abcdefABCDEF") for _ in range(n))
     for b in range(0, 9):
         for a in range(0, 9):
             for comp in (True, False):
                 for tail4 in (False, True):
+                    for glen in (1, 2, 3, 4, 5):       # every group with exactly glen hex digits (5 = too long)
+                        gl = [h16n(glen) for _ in range(b)]
+                        gr = [h16n(glen) for _ in range(a)] + (["1.2.3.4"] if tail4 else [])
+                        w = ":".join(gl) + ("::" if comp else (":" if gl and gr else "")) + ":".join(gr)
+                        extra += [w, "//[%s]" % w, "s://u@[%s]:1/p" % w]
                     left = [h16() for _ in range(b)]
                     right = [h16() for _ in range(a)]
                     if tail4:
@@ -206,7 +214,7 @@ def directed(rnd):
             "//h:", "//h:80a", "//h:8/", "//a@b@c", "//[::1]", "//[::1]:", "//[::1]x", "//[", "//]", "//[]", "[::1]", "a:[::1]", "%41", "%4", "%", "%zz", "a:%41", "a:%4", "//%41", "//%4g",
             "a b", "a\tb", "\xc3\xa9", "a:\xc3\xa9", "//h/\x00", "A-b+c.d:x", "1a:x", "+a:x", "a_b:x", "http://a/b/c/d;p?q", "mailto:John.Doe@example.com", "urn:oasis:names:specification:docbook:dtd:xml:4.1.2",
             "ldap://[2001:db8::7]/c=GB?objectClass?one", "telnet://192.0.2.16:80/", "foo://example.com:8042/over/there?name=ferret#nose", "../g", "g;x=1/../y", "?y", "g?y#s", "#s", "//g", ";x"]
-    return out
+    return out, extra
 
 
 def mutations(s):
@@ -241,7 +249,8 @@ def sampled_inputs(tier, seed):
             w = sample(GR["IPv6address"][1][i], rnd, hist)
             hist["IPv6address/alt%d" % (i + 1)] = hist.get("IPv6address/alt%d" % (i + 1), 0) + 1
             base += [w, "//[%s]" % w, "s://[%s]:8/p?q#f" % w]
-    base += directed(rnd)
+    dir_mut, dir_extra = directed(rnd)
+    base += dir_mut
     seen = set()
     uniq = []
     for w in base:
@@ -254,6 +263,11 @@ def sampled_inputs(tier, seed):
     for b in uniq:
         if len(b) <= limit:
             muts |= mutations(b)
+    for w in dir_extra:
+        b = w.encode("latin1")
+        if b not in seen:
+            seen.add(b)
+            uniq.append(b)
     muts -= seen
     return uniq, sorted(muts), hist
 
@@ -397,6 +411,13 @@ def run(ctx):
         "harness/c20_describe.hpp: maximum_rule< U, Max > dumped as an opaque leaf + (node, bits, maximum) roots; UriModel.evalx interprets it by Integer.maximum_rule",
         "driver/c20_driver.ml compares implementation verdicts with the extracted model / verified matcher and prints the disagreements",
     ]
+    ctx.assumptions = [
+        "the theorems are about the Coq engine model (UriModel.evalx) on the table regenerated from /repo on this run; the tie to the C++ is that table "
+        "(compiler-side dump) plus the verdict correspondence on the explored inputs",
+        "uri::dec_octet = maximum_rule< uint8_t > is interpreted by the C15 model Integer.maximum_rule (own correspondence check: C15)",
+        "inputs are byte strings (every element < 256); RFC 3986 Appendix A is transcribed by hand into Rfc3986.v (ABNF literals case-insensitive per RFC 5234)",
+        "completeness is proved for IPv4address only; for IPv6address and the URI forms it rests on the oracle comparison (URI forms: refuted, recorded finding)",
+    ]
     tables_ok = True
     try:
         gen_tables()
@@ -441,10 +462,19 @@ def run_cases(ctx, tier, impl, driver, workdir, tables_ok):
         jobs += pj
         jobs += case_jobs(workdir, "printshort", pshort, 1)
         dist["exhaustive: all strings of length <= 3 over printable ASCII, NUL, 0xc3"] = sum(len(pr) ** j for j in range(4))
+    # (b') longer exhaustive spaces over small alphabets: IPv4 shapes, compressed IPv6 shapes, URI delimiters
+    small = [("v4", b"0125.", 9 if tier == "thorough" else 8, 3), ("v6", b"1a:.", 10 if tier == "thorough" else 8, 3)]
+    if tier == "thorough":
+        small.append(("delim", b"a12:/?#[]@.%", 6, 2))
+    for tag, alpha, ml, pl in small:
+        sj, sshort = exh_jobs(tag, alpha, ml, pl, every=8)
+        jobs += sj
+        jobs += case_jobs(workdir, tag + "short", sshort, 1)
+        dist["exhaustive: all strings of length <= %d over %s (model on every 8th)" % (ml, show(alpha))] = sum(len(alpha) ** j for j in range(ml + 1))
     # (c) sampled from the RFC grammar + directed + single-edit mutations
     base, muts, hist = sampled_inputs(tier, ctx.seed)
     jobs += case_jobs(workdir, "base", base, 8)
-    mut_every = 32 if tier == "thorough" else 16
+    mut_every = 8
     jobs += case_jobs(workdir, "mut", muts, 64 if tier == "thorough" else 32, every=mut_every)
     dist["sampled from the RFC productions (seeded) + directed forms"] = len(base)
     dist["single-edit mutations (delete / substitute / insert over %d characters)" % len(MUT_CHARS)] = len(muts)
@@ -480,9 +510,12 @@ def run_cases(ctx, tier, impl, driver, workdir, tables_ok):
             other.append((t[1], unhx(t[2])))
         else:
             ctx.diff("driver printed an unexpected line", ln)
+    # the input sets overlap (short strings occur in several of them): count every (rule, input) once
+    diffs = sorted(set(diffs), key=lambda x: (len(x[1]), x[1], x[0]))
+    oracle = sorted(set(oracle), key=lambda x: (len(x[1]), x[1], x[0]))
+    other = sorted(set(other), key=lambda x: (len(x[1]), x[1], x[0]))
     if not tables_ok:
         diffs = []          # the model ran on a stale table: its answers mean nothing (already reported)
-    diffs.sort(key=lambda x: (len(x[1]), x[1], x[0]))
     for rule, s, i, m in diffs[:20]:
         ctx.diff("engine model on the generated table and the implementation disagree", "seq< uri::%s, eof > on '%s'" % (rule, show(s)), impl=i, model=m)
     if len(diffs) > 20:
